@@ -165,6 +165,29 @@ def crash_shapes(tier):
     return out
 
 
+def shell_scenario(shape):
+    '''Daemon-driven reorganisations of exactly the reorg limit through the real asynchronous shell
+    (fetch_and_process_blocks, _calc_reorg_range, reorg_chain, backup_block): the server must follow them and end on
+    the reference index of the new chain (the checks of C07's stories).'''
+    from props import c07
+    return c07.scenario(shape)
+
+
+def shell_shapes(tier):
+    cbA, cbB, cbC = {'cb': 'A'}, {'cb': 'B'}, {'cb': 'C'}
+    sA = {'cb': 'C', 'txs': [{'ins': 1, 'outs': 'A'}]}
+    sAB = {'cb': 'B', 'txs': [{'ins': 1, 'outs': 'AB'}]}
+    base = {'sessions': True, 'early': False, 'deviations': 0}
+    long = [cbA, cbB, cbC, sA, sAB, cbA, cbB, sA, cbC, sAB]
+    pairs = [(1, 1), (2, 2), (4, 4)] if tier == 'quick' else [(1, 1), (2, 2), (3, 3), (4, 4), (5, 4), (3, 2), (8, 8)]
+    out = []
+    for limit, depth in pairs:
+        initial = long if depth < 8 else long + long
+        new = ([cbC, sA, cbB, sAB, cbA, cbC, sA, cbB, cbA])[:depth + 1]
+        out.append(dict(base, reorg_limit=limit, initial=initial, script=[('block', cbB), ('reorg', depth, new)]))
+    return out
+
+
 def shapes(tier):
     cbA = {'cb': 'A'}
     sp = {'cb': 'B', 'txs': [{'ins': 1, 'outs': 'AC'}]}
@@ -198,4 +221,12 @@ KERNELS = [
            outside='two crashes; crash during a reorganisation (C05)',
            assumptions=['as C04: batches and puts atomic, completed file writes survive', 'LevelDB modelled by MemStore'],
            witnesses=1, prescribe=('sha256',)),
+    Kernel('SHELLWIN', shell_scenario, shell_shapes,
+           desc='daemon-driven reorganisations exactly as deep as the reorg limit through the real asynchronous shell',
+           encodes=['electrumx/server/block_processor.py:BlockProcessor._calc_reorg_range', '_reorg_hashes', 'reorg_chain',
+                    'backup_block', 'advance_block', 'fetch_and_process_blocks', 'electrumx/server/db.py:DB.min_undo_height',
+                    'read_undo_info', 'flush_backup'],
+           bounds='(reorg limit, depth) in {(1,1), (2,2), (4,4)} (quick) plus {(3,3), (5,4), (3,2), (8,8)} (thorough) on a '
+                  '11..21-block concrete chain, FIFO schedule',
+           outside='other limits; schedule deviations (C03 / C07)', assumptions=['as C07'], witnesses=1),
 ]
